@@ -6,7 +6,7 @@
  * behaviour file (one behaviour = one description):
  *   reset
  *   d <json>                  abstract description emitted by the model, echoed verbatim into the next "set" event
- *   set <hex>                 hwloc_topology_init + hwloc_topology_set_synthetic(text); the text sits in an exactly-sized
+ *   set x<hex>                hwloc_topology_init + hwloc_topology_set_synthetic(text); the text sits in an exactly-sized
  *                             heap block that is freed right after the call
  *   load <full>               hwloc_topology_load (only when set returned 0); logs the full projection (project.h,
  *                             when full=1) and the summary below
@@ -167,7 +167,7 @@ static void handler(char **lines, size_t n, int beh) {
       free(pending_d); pending_d = strdup(p);
     } else if (!strcmp(cmd, "set")) {
       char *hex = hwv_tok(&p), *text = NULL; size_t len = 0; int ret, err;
-      if (topo || !hex || unhex(hex, &text, &len) < 0) continue;
+      if (topo || !hex || hex[0] != 'x' || unhex(hex + 1, &text, &len) < 0) continue;
       hwloc_topology_init(&topo);
       errno = 0;
       ret = hwloc_topology_set_synthetic(topo, text); err = errno;
@@ -182,9 +182,9 @@ static void handler(char **lines, size_t n, int beh) {
       errno = 0;
       ret = hwloc_topology_load(topo); err = errno;
       loaded = !ret;
-      out("{\"e\":\"load\",\"ret\":%d,\"errno\":\"%s\",\"full\":%d,\"topo\":", ret, errname(err), fullp && loaded);
+      out("{\"e\":\"load\",\"ret\":%d,\"errno\":\"%s\",\"full\":%d,\"slot\":0,\"topos\":[", ret, errname(err), fullp && loaded);
       if (loaded && fullp) project_topology(topo, 1); else out("{\"n\":0}");
-      out(",\"sum\":"); if (loaded) out_summary(topo); else out("{\"depth\":0}");
+      out("],\"sum\":"); if (loaded) out_summary(topo); else out("{\"depth\":0}");
       out("}"); out_end();
     } else if (!strcmp(cmd, "perturb")) {
       char *kind = hwv_tok(&p); unsigned os = (unsigned)hwv_tokl(&p); int ret, err; hwloc_bitmap_t set;
